@@ -319,6 +319,8 @@ def run_check(prop, tier, seed, replay=None):
           f'broken={len(broken)} wall={evidence["wall_s"]}s')
     for b in broken[:5]:
         print('  broken:', b[0], '-', b[1][:300])
+    for (c, r, m) in disagreements[:3]:
+        print('  disagreement:', json.dumps(common.jsonable({'case': c, 'real': r, 'model': m}))[:1500])
     for (c, r, v) in new_viol[:5]:
         print('  violation:', v.get('kind'), '-', str(v.get('detail'))[:300])
     return exit_code
